@@ -47,12 +47,10 @@ func (authenticator *CertificateAuthenticator) Authenticate(conn Conn) (bool, er
 	if !ok {
 		return false, nil
 	}
-	for _, cert := range conState.PeerCertificates {
-		if 0 < len(authenticator.commonName) {
-			if cert.Subject.CommonName == authenticator.commonName {
-				return true, nil
-			}
-		}
+	// Only the client's own certificate counts: PeerCertificates[0] is the leaf,
+	// the certificates behind it are the intermediates the client sent along.
+	if len(conState.PeerCertificates) == 0 || len(authenticator.commonName) == 0 {
+		return false, nil
 	}
-	return false, nil
+	return conState.PeerCertificates[0].Subject.CommonName == authenticator.commonName, nil
 }
